@@ -12,7 +12,14 @@ import cmath
 
 import numpy as np
 import numpy.typing as npt
-from scipy.special import sph_harm
+try:
+    from scipy.special import sph_harm
+except ImportError:  # scipy >= 1.17 removed sph_harm in favour of sph_harm_y
+    from scipy.special import sph_harm_y
+
+    def sph_harm(m, l, az, pol):
+        """scipy.special.sph_harm(m, l, azimuth, polar) expressed with sph_harm_y"""
+        return sph_harm_y(l, m, pol, az)
 
 # pylint: disable=invalid-name
 # pylint: disable=line-too-long
@@ -468,6 +475,8 @@ def sph_harm_l(l: int, theta: float, phi: float) -> npt.NDArray:
     Return:
         spherical harmonics (npt.NDArray)
     """
+    if l == 1:
+        return SphHarm1(theta, phi)
     if l == 2:
         return SphHarm2(theta, phi)
     if l == 3:
